@@ -384,7 +384,7 @@ func (g *gen) genField(fieldType types.Type, thisField, thatField string) error 
 		} else if canCopy(typ.Elem()) {
 			p.P("*%s = *%s", thatField, thisField)
 		} else {
-			p.P("%s(%s, %s)", g.GetFuncName(typ), thatField, thisField)
+			p.P("%s(%s, %s)", g.GetFuncName(fieldType), thatField, thisField)
 		}
 		p.Out()
 		p.P("}")
@@ -428,7 +428,7 @@ func (g *gen) genField(fieldType types.Type, thisField, thatField string) error 
 		} else if canCopy(typ.Elem()) {
 			p.P("copy(%s, %s)", thatField, thisField)
 		} else {
-			p.P("%s(%s, %s)", g.GetFuncName(typ), thatField, thisField)
+			p.P("%s(%s, %s)", g.GetFuncName(fieldType), thatField, thisField)
 		}
 		p.Out()
 		p.P("}") // nil
@@ -440,7 +440,7 @@ func (g *gen) genField(fieldType types.Type, thisField, thatField string) error 
 		if hasDeepCopyMethod(fieldType) {
 			p.P("%s.DeepCopy(%s)", wrap(thisField), thatField)
 		} else {
-			p.P("%s(%s, %s)", g.GetFuncName(typ), thatField, thisField)
+			p.P("%s(%s, %s)", g.GetFuncName(fieldType), thatField, thisField)
 		}
 		p.Out()
 		p.P("} else {")
